@@ -3295,11 +3295,30 @@ def check_ctor_wiring(fns, rel, branch_fn, caller, engine_rel, engine_ty):
     return found
 
 
+def check_scope_dispatch(rel):
+    """the generated function runs the THREAD-LOCAL branch exactly when the `scope` attribute says thread, else the GLOBAL one:
+    `let __scope = #scope_expr; if __scope == …::ThreadLocal { #thread_local_branch } else { #global_branch }` with
+    `scope_expr = &attrs.scope` (token level: the proc-macro function is outside the parsed subset)"""
+    toks = [t[1] for t in production_tokens(rel)]
+    txt = " ".join(toks)
+    import re as _re
+    pat = (r"let __scope = # scope_expr ; if __scope == (?:\w+ :: )*CacheScope :: ThreadLocal \{ # thread_local_branch \} "
+           r"else \{ # global_branch \}")
+    if len(_re.findall(pat, txt)) != 1:
+        raise Untranslatable(f"{rel}: the generated function no longer dispatches `if __scope == CacheScope::ThreadLocal {{ thread branch }} else {{ global branch }}`")
+    if len(_re.findall(r"let scope_expr = & attrs \. scope ;", txt)) != 1:
+        raise Untranslatable(f"{rel}: `scope_expr` is no longer `&attrs.scope`")
+    for (var, fn_) in (("thread_local_branch", "generate_thread_local_branch"), ("global_branch", "generate_global_branch")):
+        if len(_re.findall(r"let " + var + r" = " + fn_ + r" \(", txt)) != 1:
+            raise Untranslatable(f"{rel}: `{var}` is no longer the result of `{fn_}`")
+
+
 def translate_wrapper():
     """Generated/PureWrap.lean: 16 configurations x {Thread, Global}"""
     rel = "cachelito-macros/src/lib.rs"
     path = os.path.join(REPO, rel)
     fns = {f["name"]: f for (_, f) in parse_source(path)}
+    check_scope_dispatch(rel)
     check_ctor_wiring(fns, rel, "generate_thread_local_branch", "cache", "cachelito-core/src/thread_local_cache.rs", "ThreadLocalCache")
     check_ctor_wiring(fns, rel, "generate_global_branch", "cache", "cachelito-core/src/global_cache.rs", "GlobalCache")
     out = []
